@@ -259,8 +259,11 @@ func (p *exeParser) readFragmentDef() (frag *Fragment, err error) {
 	}
 	if err == nil {
 		var token string
+		// Where "on" is expected. After readToken the scanner may be on
+		// the next line.
+		line, col := p.line, p.col
 		if token, err = p.readToken(); token != "on" {
-			err = parseError(p.line, p.col-2, "missing fragment condition")
+			err = parseError(line, col, "missing fragment condition")
 		}
 	}
 	if err == nil {
